@@ -2,8 +2,6 @@ package sim
 
 // Scenario payload stubs (replaced as scenarios are implemented).
 
-type ReuseCase struct{}
-type DMTCase struct{}
 type HistCase struct{}
 type TreeCase struct{}
 type ConcCase struct{}
